@@ -117,9 +117,19 @@ def gen_state(rng, tree, date):
         elif field == "inc1":
             st[field] = max(1, rng.choice(BOUNDARY_INTS))
         elif field == "bid":
-            st[field] = gen_bid(rng, bld=(name == "BLD"))
+            st[field] = gen_bid(rng, bld=(kind == "bld" or kind.startswith("bldpad")))
+            if kind == "build4":
+                st[field] = st[field].zfill(4)
+            if kind.startswith("bldpad:"):
+                # ids shorter than the pad width would need zero padding, which {BB}/{BBB}'s own recogniser rejects
+                # ([1-9]\d{n,}); the README's ids start at 1001, so stay at or above the width (see DESIGN 8, F16)
+                width = int(kind.split(":")[1])
+                if len(st[field]) < width:
+                    st[field] = st[field] + "1" * (width - len(st[field]))
         elif field == "tag":
             st[field] = rng.choice(["final", "final", "alpha", "beta", "rc", "post", "dev"])
+    if "tag" in st and any(rp.PARTS[n][1] == "pytag0" for n in names) and False:
+        pass
     if "tag" in st or "num" in [rp.PARTS[n][0] for n in names]:
         tag = st.get("tag", "final")
         if "NUM" in names:
@@ -133,7 +143,10 @@ TAG_CHOICES = ["alpha", "beta", "rc", "post", "dev", "final"]
 
 
 def gen_flags(rng, tree, all_subsets=False):
-    names = set(rp.parts_of(tree))
+    legacy = any(n.startswith("L.") for n in rp.parts_of(tree))
+    names = set(n.split(".")[-1].upper() if n.startswith("L.") else n for n in rp.parts_of(tree))
+    if legacy and "RELEASE_TAG" in names:
+        names.add("TAG")
     flags = {}
     if all_subsets:
         bits = rng.randrange(128)
@@ -150,7 +163,7 @@ def gen_flags(rng, tree, all_subsets=False):
         elif rng.random() < 0.08:
             pool.append(k)
     if names & {"TAG", "PYTAG"}:
-        pool += ["tag", "tag", "tag_num"]
+        pool += ["tag", "tag"] + ([] if legacy else ["tag_num"])
     elif rng.random() < 0.05:
         pool += ["tag"]
     pool += ["pin_date", "pin_increments"]
@@ -198,7 +211,7 @@ def gen_epoch(rng, two_digit_year=False):
 
 
 def has_two_digit_year(tree):
-    return bool(set(rp.parts_of(tree)) & {"YY", "0Y", "GG", "0G"})
+    return bool(set(rp.parts_of(tree)) & {"YY", "0Y", "GG", "0G", "L.yy"})
 
 
 def gen_clock_delta(rng):
@@ -212,3 +225,11 @@ def gen_clock_delta(rng):
     if r < 0.85:
         return rng.randint(46, 800)
     return -rng.randint(1, 400)
+
+
+LEGACY_PATTERNS = ["{pycalver}", "{pycalver}", "{semver}", "{semver}", "v{year}{month}{build}{release}",
+                   "{year}{month}{build}{release}", "v{year}{build}{release}", "{year}{build}{release}",
+                   "{year}.{month}.{MINOR}", "v{year}.{month_short}.{PATCH}", "{yy}.{month}.{dom}{build}",
+                   "{year}q{quarter}.{BID}{release}", "{year}.{doy}{build}{release}", "{MAJOR}.{MM}.{PPP}",
+                   "v{MAJOR}.{MINOR}.{PATCH}-{tag}", "{year}.{BBB}", "{yyyy}.{month}.{bid}", "{year}{month}.{build_no}",
+                   "v{semver}", "{calver}.{PATCH}", "rel-{year}.{month_short}.{dom}.{MINOR}"]
